@@ -1,7 +1,7 @@
 (* C05: concrete instances showing that the hypotheses of the C05 theorems are satisfiable (non-vacuity). *)
 From Coq Require Import List Arith Lia PeanoNat Bool ZArith.
-From TV Require Import Num.Ops Lin.BigSum Model.Cross Proofs.CrossIdx Proofs.CrossGeo Proofs.CrossP Proofs.Cross05P
-  Proofs.Cross05PSim Proofs.Cross05PInterp.
+From TV Require Import Num.Ops Lin.Tab Lin.BigSum Lin.Mat TT.Chain Model.Cross Model.CrossNum Proofs.CrossIdx Proofs.CrossGeo
+  Proofs.CrossP Proofs.Cross05P Proofs.Cross05PSim Proofs.Cross05PInterp Proofs.Cross05PNum.
 Import ListNotations.
 Local Open Scope nat_scope.
 
@@ -63,4 +63,68 @@ Lemma ex_ltr_values :
   map (fun q => let (L', v') := runI OZ psZ [[]] (e0 OZ) q in
                 bsum OZ (length L') (fun a => v' a * AZ (nth a L' [])))
       [[0; 0]; [1; 0]; [0; 1]; [1; 1]]%nat = [1; 2; 2; 4].
+Proof. vm_compute. reflexivity. Qed.
+
+(* ---------- the instantiated model on the rank-1 target AZ: hypotheses of cross_exact_ltr hold ---------- *)
+(* "QR" with R = identity (meets Z = Q R), "maxvol" picking row 0 with B = Q (meets B Q[ind] = Q when Q[0] = 1) *)
+Definition qrI (M : mat Z) : mat Z * mat Z := (M, mid OZ (mc M)).
+Definition mvI0 (Q : mat Z) (dmin dmax : nat) : list nat := [0%nat].
+Definition mvB0 (Q : mat Z) (ind : list nat) : mat Z := Q.
+Definition fA (k : nat) (I : rows) : option (list Z) := Some (map AZ I).
+Definition oneC : core Z := mk_core 1 2 1 [[[1]; [1]]].
+Definition CN : @cfg Z (core Z) :=
+  mkcfg [mkc 1%nat 2%nat 1%nat oneC; mkc 1%nat 2%nat 1%nat oneC] None None (Some 3%nat) None false false 0 0 5 None.
+Definition stepZN := step OZ (fun _ => false) fA None (ponesN OZ) (pdotLN OZ) (pdotRN OZ) (pvalsN OZ)
+  (pickN OZ qrI mvI0) (pcoreGN OZ qrI mvB0) (pfacRN OZ qrI) (fun _ _ => 0) (fun _ _ _ => 0) (fun _ _ => 0) CN.
+Definition s0N := run OZ (fun _ => false) fA None (ponesN OZ) (pdotLN OZ) (pdotRN OZ) (pvalsN OZ)
+  (pickN OZ qrI mvI0) (pcoreGN OZ qrI mvB0) (pfacRN OZ qrI) (fun _ _ => 0) (fun _ _ _ => 0) (fun _ _ => 0) CN 0.
+
+Lemma qrI_ok Zm : qr_ok_at OZ qrI Zm.
+Proof.
+  unfold qr_ok_at, qrI; cbn [fst snd]. split; [reflexivity|]. split; [reflexivity|].
+  intros t c Ht Hc. cbn [mc mid mkmat].
+  rewrite (bsum_single OZ OZ_rng (mc Zm) c); auto.
+  - rewrite mget_mid, Nat.eqb_refl by auto. cbn. ring.
+  - intros i Hi Hne. rewrite mget_mid by auto. destruct (Nat.eqb_spec i c); [contradiction|]. cbn. ring.
+Qed.
+
+Lemma ex_num_hyps :
+  (1 <= d CN)%nat /\ s_pc s0N = Run true true 0 /\ k_stop (sK s0N) = None /\ k_cache (sK s0N) = None /\
+  length (sY s0N) = d CN /\ length (sIr s0N) = S (d CN) /\ nth 0 (sIr s0N) None = None /\
+  nth (d CN) (sIc s0N) None = None /\
+  (forall i, (i < d CN)%nat ->
+     pos_ok OZ qrI mvI0 mvB0 AZ CN s0N i (iterate stepZN i s0N)).
+Proof.
+  repeat (split; [vm_compute; try reflexivity; lia|]).
+  intros i Hi. change (d CN) with 2%nat in Hi.
+  assert (i = 0 \/ i = 1)%nat as [->| ->] by lia.
+  - split; [|split; [apply qrI_ok|]].
+    + assert (E1 : orl (nth 0 (sIr (iterate stepZN 0 s0N)) None) = [[]]) by (vm_compute; reflexivity).
+      assert (E2 : orl (nth 1 (sIc s0N) None) = [[0%nat]]) by (vm_compute; reflexivity).
+      rewrite E1, E2. change (nth 0 (nsN CN) 0%nat) with 2%nat. change (skipn 1 (nsN CN)) with [2%nat].
+      exists (fun c u => Z.of_nat (nth 0%nat u 0%nat) + 1). intros t u Ht Hu.
+      inversion Hu as [|j n' u' ns' Hj Hu']; subst. inversion Hu'; subst. cbn [length] in Ht.
+      assert (t = 0%nat \/ t = 1%nat) as [->| ->] by lia; unfold AZ, cand, bsum; cbn; lia.
+    + unfold mv_ok_at, mvI0, mvB0. cbv zeta. split; [repeat constructor; vm_compute; lia|].
+      intros t k Ht Hk.
+      assert (Er : mr (fst (qrI (Zm_of OZ AZ CN s0N 0 (iterate stepZN 0 s0N)))) = 2%nat) by (vm_compute; reflexivity).
+      assert (Ec : mc (fst (qrI (Zm_of OZ AZ CN s0N 0 (iterate stepZN 0 s0N)))) = 1%nat) by (vm_compute; reflexivity).
+      rewrite Er in Ht. rewrite Ec in Hk. assert (k = 0%nat) by lia. subst k.
+      assert (t = 0%nat \/ t = 1%nat) as [->| ->] by lia; vm_compute; reflexivity.
+  - split; [|split; [apply qrI_ok|]].
+    + assert (E1 : orl (nth 1 (sIr (iterate stepZN 1 s0N)) None) = [[0%nat]]) by (vm_compute; reflexivity).
+      assert (E2 : orl (nth 2 (sIc s0N) None) = [[]]) by (vm_compute; reflexivity).
+      rewrite E1, E2. change (nth 1 (nsN CN) 0%nat) with 2%nat. change (skipn 2 (nsN CN)) with (@nil nat).
+      exists (fun c u => 1). intros t u Ht Hu. inversion Hu; subst. cbn [length] in Ht.
+      assert (t = 0%nat \/ t = 1%nat) as [->| ->] by lia; vm_compute; reflexivity.
+    + unfold mv_ok_at, mvI0, mvB0. cbv zeta. split; [repeat constructor; vm_compute; lia|].
+      intros t k Ht Hk.
+      assert (Er : mr (fst (qrI (Zm_of OZ AZ CN s0N 1 (iterate stepZN 1 s0N)))) = 2%nat) by (vm_compute; reflexivity).
+      assert (Ec : mc (fst (qrI (Zm_of OZ AZ CN s0N 1 (iterate stepZN 1 s0N)))) = 1%nat) by (vm_compute; reflexivity).
+      rewrite Er in Ht. rewrite Ec in Hk. assert (k = 0%nat) by lia. subst k.
+      assert (t = 0%nat \/ t = 1%nat) as [->| ->] by lia; vm_compute; reflexivity.
+Qed.
+
+Lemma ex_num_values :
+  map (ttval OZ (sY (iterate stepZN 2 s0N))) [[0; 0]; [1; 0]; [0; 1]; [1; 1]]%nat = [1; 2; 2; 4].
 Proof. vm_compute. reflexivity. Qed.
